@@ -75,7 +75,19 @@ def main():
         os.remove(demo_dst)
         # 2. patched: build + existing tests
         rc, out = sh(["git", "apply", patch], cwd=wt)
+        if rc != 0:
+            rc, out = sh(["git", "apply", "--3way", patch], cwd=wt)
+            sh(["git", "reset", "-q"], cwd=wt)
         res["patch_applies"] = rc == 0
+        if rc != 0:
+            # the tree moved under the patch (a later fix: commit touched the same lines): nothing below is meaningful
+            res["stale"] = True
+            res["detected"] = False
+            res["concrete_replay"] = False
+            json.dump(res, open(os.path.join(seed_dir, "verified.json"), "w"), indent=1)
+            print(json.dumps(res, indent=1))
+            print("STALE: patch no longer applies to /repo HEAD; rebase it by hand")
+            return
         rc, out = sh(["go", "build", "./..."], cwd=wt)
         res["patched_builds"] = rc == 0
         pk = ["./..."] if full else sorted(set(touched + [pkg]))
